@@ -7,6 +7,9 @@ Exports (used by harness/c03.py, owned by the coordinator):
   classify / KNOWN_REPLAYS / replay_input / search
   validate_spec_on_vectors()                   Core's own script_tests.json / tx_valid.json / tx_invalid.json
   lax_report()                                 informational counts of the lax-DER stream
+  multi_check_cases(rng, tier, part)           spends (bare / P2SH / P2WSH) whose ONE script runs 2-4 signature checks with
+                                               real signatures, each valid exactly for the digest of its own position
+                                               (own code separator, own FindAndDelete set), plus tampered versions
 
 Case formats
   eval case  : EvalCase(flags, sv, script, stack, tx, nin, amount)   sv in "B","W"; stack top LAST
@@ -924,7 +927,7 @@ def validate_spec_on_vectors(verbose=False):
 # ================================================================================================
 # generators
 # ================================================================================================
-STATS = {"eval": 0, "eval_ok": 0, "spend": 0, "spend_ok": 0, "lax_region_diffs_in_main_stream": 0}
+STATS = {"eval": 0, "eval_ok": 0, "spend": 0, "spend_ok": 0, "lax_region_diffs_in_main_stream": 0, "multi_check": 0, "multi_check_spec_ok": 0}
 LAX_STATS = {"cases": 0, "agree": 0, "differ": 0, "crash": 0, "by_variant": {}}
 
 NUMERIC_VALUES = [0, 1, -1, 2, 16, 17, 127, 128, -127, -128, 255, 256, 32767, 32768, -32768, 8388607, 8388608,
@@ -1993,6 +1996,408 @@ def junk_sig_batches(rng, tier):
             yield EvalCase(fl, "B", script, [b"", junk_b, sg], t1, 0, 0, "junkbatch/witness/%s" % junk_b.hex())
 
 
+# ---- several signature checks in ONE script evaluation, real signatures ---------------------------
+# Every CHECKSIG / CHECKMULTISIG operation hashes the transaction for ITS OWN script code: the script from the last
+# EXECUTED OP_CODESEPARATOR to the end, and (legacy only) with the plain push of every signature of ITS OWN batch
+# removed by FindAndDelete.  Two checks of one script therefore sign different digests as soon as a code separator
+# runs between them or the bytes of one of the signatures occur as a push in the script.  The family builds such
+# scripts with signatures made for exactly the digest consensus prescribes at each position (valid versions) and
+# with one signature made for the digest of another position / another deletion set / another hash type (tampered
+# versions, invalid).  The construction knows the verdict; it is carried in the tag (`|expect=ok` / `|expect=fail`)
+# and chk_spend / chk_eval also compare the SPEC with it, so the family cannot silently degenerate.
+MC_SEPS = {  # name: (bytes before the OP_CODESEPARATOR, bytes after it, is it executed)
+    "live": (b"", b"", True),
+    "live_if": (b"\x51\x63", b"\x68", True),          # 1 IF CODESEPARATOR ENDIF: script code starts at the ENDIF
+    "live_else": (b"\x00\x63\x67", b"\x68", True),    # 0 IF ELSE CODESEPARATOR ENDIF
+    "dead_if": (b"\x00\x63", b"\x68", False),         # 0 IF CODESEPARATOR ENDIF: not executed, script code unchanged
+    "dead_else": (b"\x51\x63\x67", b"\x68", False),   # 1 IF ELSE CODESEPARATOR ENDIF
+    "dead_notif": (b"\x51\x64", b"\x68", False),      # 1 NOTIF CODESEPARATOR ENDIF
+}
+MC_EMB_DELETABLE = ("direct", "twice", "dead")        # every copy is the plain push at an opcode boundary
+MC_EMB_FORMS = ("direct", "twice", "dead", "pd1", "pd2", "mixed", "inside")
+MC_HTS = [1, 2, 3, 0x81, 0x82, 0x83]
+
+
+def _mc_sign(key_i, digest: bytes, ht: int, salt=0) -> bytes:
+    """strict-DER, low-S signature blob of `digest`; salt != 0 uses another nonce: a different, equally valid signature"""
+    gen_k = None
+    if salt:
+        def gen_k(n, se, val):
+            return 1 + int.from_bytes(sha256(b"c03-multicheck-nonce" + bytes([salt]) + se.to_bytes(32, "big") + val.to_bytes(32, "big")), "big") % (n - 1)
+    r, s = _G.sign(SECRETS[key_i], int.from_bytes(digest, "big"), gen_k)
+    return der_sig(r, min(s, N_ORDER - s)) + bytes([ht])
+
+
+def _mc_emb_bytes(form, E):
+    """the script fragment that carries the signature bytes E (stack-neutral); E = None: every copy left out (the
+    script code as it is after a deletion of all copies)"""
+    if E is None:
+        p = pd1 = pd2 = ins = b""
+    else:
+        p = push_raw(E)
+        pd1 = b"\x4c" + bytes([len(E)]) + E
+        pd2 = b"\x4d" + len(E).to_bytes(2, "little") + E
+        ins = push_raw(b"\x99" + p)
+    return {"direct": p + b"\x75", "twice": p + p + b"\x6d", "dead": b"\x00\x63" + p + b"\x68", "pd1": pd1 + b"\x75",
+            "pd2": pd2 + b"\x75", "mixed": p + pd1 + b"\x6d", "inside": ins + b"\x75"}[form]
+
+
+def _mc_check_bytes(c, last, fin, keyform):
+    if c["op"] == "cs":
+        body, op = push_raw(sec(c["keys"][0], keyform(c["keys"][0]))), 0xAC
+    else:
+        body = push_int(len(c["signers"])) + b"".join(push_raw(sec(k, keyform(k))) for k in c["keys"]) + push_int(len(c["keys"]))
+        op = 0xAE
+    if last:
+        return body + bytes([op if fin == "plain" else op + 1])
+    return body + (bytes([op + 1]) if c.get("v", "v") == "v" else bytes([op, 0x69]))
+
+
+def _mc_render(P, E, keyform):
+    """-> (segments, begins): the script is the concatenation of the segments; a new segment starts right after every
+    EXECUTED OP_CODESEPARATOR; begins[i] = index of the first segment of check i's script code"""
+    segs, begins, begin = [bytearray()], [], 0
+    checks = P["checks"]
+    n = len(checks)
+    for g in range(n + 1):
+        for it in P["gaps"].get(g, ()):
+            if it[0] == "sep":
+                pre, post, live = MC_SEPS[it[1]]
+                segs[-1] += pre + b"\xab"
+                if live:
+                    segs.append(bytearray())
+                    begin = len(segs) - 1
+                segs[-1] += post
+            else:
+                segs[-1] += _mc_emb_bytes(it[1], E)
+        if g < n:
+            begins.append(begin)
+            segs[-1] += _mc_check_bytes(checks[g], g == n - 1, P.get("fin", "plain"), keyform)
+    if P.get("fin", "plain") != "plain":
+        segs[-1] += b"\x51"
+    return [bytes(s) for s in segs], begins
+
+
+def _mc_construct(P, sv, tx, nin, amount):
+    """-> (script, stack items bottom..top, all signatures valid by construction?, executes a non-minimal push?)"""
+    if sv == "W":
+        def dg(code, ht):
+            return sighash_bip143(code, tx, nin, ht, amount)
+
+        def keyform(k):
+            return "c"
+    else:
+        def dg(code, ht):
+            return sighash_legacy(code, tx, nin, ht)
+
+        def keyform(k):
+            return "u" if (k + P.get("kf", 0)) % 3 == 0 else "c"
+    checks = P["checks"]
+    n = len(checks)
+    emb, dup, tamper = P.get("emb"), P.get("dup"), P.get("tamper", ("none",))
+    slots = [(i, t) for i in range(n) for t in range(len(checks[i]["signers"]))]
+
+    def key_of(sl):
+        c = checks[sl[0]]
+        return c["keys"][c["signers"][sl[1]]]
+
+    def ht_of(sl):
+        return checks[sl[0]]["hts"][sl[1]]
+    E, made, blobs = None, {}, {}
+    segs0, begins0 = _mc_render(P, None, keyform)
+    if emb is not None:
+        # the embedded signature first: it signs its check's script code with every copy of itself left out
+        made[emb] = dg(b"".join(segs0[begins0[emb[0]]:]), ht_of(emb))
+        E = blobs[emb] = _mc_sign(key_of(emb), made[emb], ht_of(emb))
+    segs, begins = _mc_render(P, E, keyform)
+    batch_has_E = set()
+    if emb is not None:
+        batch_has_E.add(emb[0])
+        if dup and dup[0] == "same_sig" and emb == (dup[1], 0):
+            batch_has_E.add(dup[2])
+    codes = []
+    for i in range(n):
+        code = b"".join(segs[begins[i]:])
+        if sv == "B" and i in batch_has_E:
+            code = core_find_and_delete(code, push_raw(E))
+        codes.append(code)
+    presc = {sl: dg(codes[sl[0]], ht_of(sl)) for sl in slots}
+    for sl in slots:
+        if sl == emb:
+            continue
+        i = sl[0]
+        d = presc[sl]
+        if tamper[0] == "swap" and sl == (tamper[1], tamper[2]):
+            d = dg(codes[tamper[3]], ht_of(sl))                 # made for the script code of ANOTHER position
+        elif tamper[0] == "fad_all" and E is not None:
+            # made as if the embedded signature were deleted for every check of the script
+            d = dg(core_find_and_delete(b"".join(segs[begins[i]:]), push_raw(E)) if sv == "B" else b"".join(segs0[begins0[i]:]), ht_of(sl))
+        elif tamper[0] == "swap_ht" and sl == (tamper[1], tamper[2]):
+            d = dg(codes[i], tamper[3])                         # made for another hash type than the one it carries
+        made[sl] = d
+        salt = 1 if dup is not None and dup[0] == "two_sigs" and sl == ((dup[2], 0) if emb != (dup[2], 0) else (dup[1], 0)) else 0
+        if d != presc[sl]:
+            salt += 2           # never the very bytes of another position's signature (they could be the embedded ones)
+        blobs[sl] = _mc_sign(key_of(sl), d, ht_of(sl), salt)
+    if dup and dup[0] == "same_sig":
+        blobs[(dup[2], 0)], made[(dup[2], 0)] = blobs[(dup[1], 0)], made[(dup[1], 0)]
+    if dup and dup[0] == "two_sigs":
+        assert blobs[(dup[1], 0)] != blobs[(dup[2], 0)]
+    items = []
+    for i in range(n - 1, -1, -1):
+        if checks[i]["op"] == "cms":
+            items.append(b"")
+        items += [blobs[(i, t)] for t in range(len(checks[i]["signers"]))]
+    nonmin = any(it[0] == "emb" and it[1] in ("pd1", "pd2", "mixed") for g in P["gaps"].values() for it in g)
+    # the verdict of the construction, from the signature bytes actually used: each check's script code with the plain
+    # push of every signature of its own batch deleted (legacy), each signature made for exactly that digest
+    valid = True
+    for i in range(n):
+        code = b"".join(segs[begins[i]:])
+        m_i = len(checks[i]["signers"])
+        if sv == "B":
+            for t in range(m_i - 1, -1, -1):
+                code = core_find_and_delete(code, push_raw(blobs[(i, t)]))
+        valid = valid and all(made[(i, t)] == dg(code, ht_of((i, t))) for t in range(m_i))
+    return b"".join(segs), items, valid, nonmin
+
+
+def _mc_cs(k, ht=1, v="v"):
+    return {"op": "cs", "keys": [k], "signers": [0], "hts": [ht], "v": v}
+
+
+def _mc_cms(keys, signers, hts, v="v"):
+    return {"op": "cms", "keys": list(keys), "signers": list(signers), "hts": list(hts), "v": v}
+
+
+def _mc_core_plans():
+    """the deterministic part: (name, plan)"""
+    E, S = (lambda f="direct": ("emb", f)), (lambda f="live": ("sep", f))
+    out = []
+
+    def add(name, checks, gaps=None, **kw):
+        out.append((name, dict({"checks": checks, "gaps": gaps or {}}, **kw)))
+    two = lambda: [_mc_cs(0), _mc_cs(0)]                                             # noqa: E731
+    # the signature of one check occurs in the script: FindAndDelete applies to that check only
+    add("emb0_front", two(), {0: [E()]}, emb=(0, 0), dup=("two_sigs", 0, 1))
+    add("emb1_front", two(), {0: [E()]}, emb=(1, 0), dup=("two_sigs", 0, 1))
+    add("emb0_between", two(), {1: [E()]}, emb=(0, 0), dup=("two_sigs", 0, 1))
+    add("emb1_between", [_mc_cs(0, 1, "op"), _mc_cs(0)], {1: [E()]}, emb=(1, 0), dup=("two_sigs", 0, 1))
+    add("emb0_after", two(), {2: [E()]}, emb=(0, 0), dup=("two_sigs", 0, 1), fin="v1")
+    add("emb1_after", two(), {2: [E()]}, emb=(1, 0), dup=("two_sigs", 0, 1))
+    add("emb0_two_places", two(), {0: [E()], 1: [E()]}, emb=(0, 0), dup=("two_sigs", 0, 1))
+    add("emb_both_checks_same_sig", two(), {0: [E()]}, emb=(0, 0), dup=("same_sig", 0, 1))
+    add("emb0_keys_differ", [_mc_cs(1), _mc_cs(2)], {0: [E()]}, emb=(0, 0))
+    add("emb1_hts_differ", [_mc_cs(3, 1), _mc_cs(3, 0x83)], {0: [E()]}, emb=(1, 0))
+    for form in MC_EMB_FORMS[1:]:
+        add("emb0_" + form, [_mc_cs(4), _mc_cs(5, 1, "op")][::-1], {0: [E(form)]}, emb=(0, 0))
+        add("emb1_" + form, [_mc_cs(4), _mc_cs(4)], {1: [E(form)]}, emb=(1, 0), dup=("two_sigs", 0, 1))
+    # the same (key, hash type) twice, with and without a code separator that is / is not executed in between
+    add("same_sig_twice", two(), {}, dup=("same_sig", 0, 1))
+    add("two_sigs", two(), {}, dup=("two_sigs", 0, 1))
+    for sf in MC_SEPS:
+        add("same_sig_twice_sep_" + sf, two(), {1: [S(sf)]}, dup=("same_sig", 0, 1))
+        add("two_sigs_sep_" + sf, [_mc_cs(6, 0x81), _mc_cs(6, 0x81)], {1: [S(sf)]}, dup=("two_sigs", 0, 1))
+    add("sep_front_and_back", [_mc_cs(7), _mc_cs(8, 2)], {0: [S()], 2: [S()]})
+    # a code separator between the checks and the embedded signature on either side of it
+    add("emb1_before_sep", two(), {0: [E()], 1: [S()]}, emb=(1, 0), dup=("two_sigs", 0, 1))
+    add("emb0_before_sep", two(), {0: [E()], 1: [S()]}, emb=(0, 0), dup=("two_sigs", 0, 1))
+    add("emb0_after_sep", two(), {1: [S(), E()]}, emb=(0, 0), dup=("two_sigs", 0, 1))
+    add("emb1_after_sep", two(), {1: [S("live_if"), E()]}, emb=(1, 0), dup=("two_sigs", 0, 1))
+    add("emb1_dead_sep", two(), {0: [E("twice")], 1: [S("dead_if")]}, emb=(1, 0), dup=("two_sigs", 0, 1))
+    # CHECKMULTISIG batches: the whole batch shares one deletion set
+    add("cs_cms_cs", [_mc_cs(0), _mc_cms([1, 2, 3], [0, 2], [1, 1]), _mc_cs(2)], {0: [E()]}, emb=(1, 1))
+    add("cs_cms_cs_emb_cs", [_mc_cs(2), _mc_cms([1, 2, 3], [1, 2], [1, 0x82], "op"), _mc_cs(2)], {1: [E()]}, emb=(2, 0))
+    add("cms_cms_same_keys", [_mc_cms([0, 1], [0, 1], [1, 0x82]), _mc_cms([0, 1], [0, 1], [3, 0x81])], {0: [E()]}, emb=(0, 0))
+    add("cms_cms_same_keys_hts", [_mc_cms([0, 1], [0, 1], [1, 1]), _mc_cms([0, 1], [0, 1], [1, 1])], {1: [E()]}, emb=(1, 1), fin="v1")
+    add("cms_cms_sep", [_mc_cms([5, 6, 7], [1], [1]), _mc_cms([5, 6, 7], [1], [1])], {1: [S()]})
+    add("cms1of1_cs", [_mc_cms([9], [0], [1]), _mc_cs(9)], {0: [E()]}, emb=(0, 0))
+    # three and four checks, hash type mixes
+    add("three_hts", [_mc_cs(0, 2), _mc_cs(0, 3), _mc_cs(0, 0x81)], {})
+    add("three_hts_emb", [_mc_cs(0, 0x82), _mc_cs(0, 0x83, "op"), _mc_cs(0, 0x82)], {1: [E()]}, emb=(2, 0), dup=("two_sigs", 0, 2))
+    add("four", [_mc_cs(0), _mc_cs(1), _mc_cs(0), _mc_cs(1)], {1: [E()], 3: [S()]}, emb=(2, 0))
+    add("four_same", [_mc_cs(3), _mc_cs(3), _mc_cs(3), _mc_cs(3)], {0: [E()], 2: [S("dead_notif")]}, emb=(3, 0), dup=("two_sigs", 1, 2))
+    add("four_mixed", [_mc_cs(3, 1), _mc_cms([3, 4], [0], [1]), _mc_cs(4, 3), _mc_cms([3, 4], [0, 1], [1, 3])], {2: [S("live_else"), E("twice")]},
+        emb=(3, 0), fin="v1")
+    return out
+
+
+def _mc_random_plan(rng):
+    n = rng.choice([2, 2, 2, 3, 3, 4])
+    same_key = rng.random() < 0.5
+    base = rng.randrange(12)
+    same_ht = rng.random() < 0.55
+    ht0 = rng.choice(MC_HTS)
+
+    def ht():
+        return ht0 if same_ht else rng.choice(MC_HTS)
+    checks = []
+    for i in range(n):
+        v = rng.choice(["v", "v", "op"])
+        if rng.random() < 0.7:
+            checks.append(_mc_cs(base if same_key else rng.randrange(12), ht(), v))
+        else:
+            nk = rng.choice([1, 2, 2, 3])
+            keys = rng.sample(range(12), nk)
+            if same_key and base not in keys:
+                keys[rng.randrange(nk)] = base
+            signers = sorted(rng.sample(range(nk), rng.randint(1, nk)))
+            checks.append(_mc_cms(keys, signers, [ht() for _ in signers], v))
+    P = {"checks": checks, "gaps": {}, "fin": rng.choice(["plain", "plain", "v1"]), "kf": rng.randrange(3)}
+    for g in range(n + 1):
+        if rng.random() < (0.3 if 0 < g < n else 0.12):
+            P["gaps"].setdefault(g, []).append(("sep", rng.choice(list(MC_SEPS))))
+    cs = [i for i in range(n) if checks[i]["op"] == "cs"]
+    if len(cs) >= 2 and rng.random() < 0.45:
+        a, b = sorted(rng.sample(cs, 2))
+        checks[b]["keys"], checks[b]["hts"] = list(checks[a]["keys"]), list(checks[a]["hts"])
+        P["dup"] = (rng.choice(["same_sig", "two_sigs", "two_sigs"]), a, b)
+    if rng.random() < 0.75:
+        j = rng.randrange(n)
+        t = rng.randrange(len(checks[j]["signers"]))
+        if P.get("dup") and P["dup"][0] == "same_sig" and j == P["dup"][2]:
+            j, t = P["dup"][1], 0
+        P["emb"] = (j, t)
+        for _ in range(1 if rng.random() < 0.75 else 2):
+            form = rng.choice(MC_EMB_FORMS) if rng.random() < 0.5 else "direct"
+            lst = P["gaps"].setdefault(rng.randrange(n + 1), [])
+            lst.insert(rng.randint(0, len(lst)), ("emb", form))
+    return P
+
+
+def _mc_tampers(P, rng=None):
+    """the tampered versions of a plan: one signature made for another position's script code, every signature made as
+    if the embedded one were deleted everywhere, one signature made for another hash type"""
+    checks, emb = P["checks"], P.get("emb")
+    n = len(checks)
+    slots = [(i, t) for i in range(n) for t in range(len(checks[i]["signers"])) if (i, t) != emb]
+    if P.get("dup") and P["dup"][0] == "same_sig":
+        slots = [sl for sl in slots if sl != (P["dup"][2], 0)] or slots      # that slot reuses the other one's signature
+    out = []
+    for k, (i, t) in enumerate(slots):
+        others = [b for b in range(n) if b != i]
+        # prefer the position of the embedded signature: its deletion set is the one that differs
+        b = emb[0] if (emb is not None and emb[0] != i) else others[(k + i) % len(others)]
+        out.append(("swap", i, t, b))
+    if emb is not None:
+        out.append(("fad_all",))
+    i, t = slots[-1] if rng is None else rng.choice(slots)
+    ht = checks[i]["hts"][t]
+    out.append(("swap_ht", i, t, {1: 0x81, 2: 3, 3: 2, 0x81: 1, 0x82: 0x83, 0x83: 0x82}[ht]))
+    return out
+
+
+MC_FLAGS_BASE = [0, FL["P2SH"], FL["NULLFAIL"], FL["P2SH"] | FL["STRICTENC"] | FL["DERSIG"] | FL["LOW_S"] | FL["NULLFAIL"] | FL["NULLDUMMY"],
+                 FL["P2SH"] | FL["WITNESS"] | FL["CLEANSTACK"] | FL["SIGPUSHONLY"] | FL["STRICTENC"], FL["P2SH"] | FL["DERSIG"]]
+MC_FLAGS_WIT = [FL["P2SH"] | FL["WITNESS"], FL["P2SH"] | FL["WITNESS"] | FL["NULLFAIL"] | FL["WITNESS_PUBKEYTYPE"] | FL["MINIMALIF"],
+                FL["P2SH"] | FL["WITNESS"] | FL["CLEANSTACK"] | FL["STRICTENC"] | FL["DERSIG"] | FL["LOW_S"] | FL["NULLDUMMY"]]
+
+
+def _mc_expect(container, flags, ok, nonmin):
+    runs = (container == "bare" or (container == "p2sh" and flags & FL["P2SH"])
+            or (container in ("p2wsh", "p2sh_p2wsh") and flags & FL["WITNESS"]))
+    if not runs:
+        return "ok"                              # the script with the signature checks is never evaluated
+    return "ok" if ok and not (nonmin and flags & FL["MINIMALDATA"]) else "fail"
+
+
+def _mc_tx(rng):
+    tx = rand_tx(rng)
+    nin = rng.randrange(len(tx.vin))
+    if rng.random() < 0.1 and len(tx.vout) > 1:
+        tx.vout = tx.vout[:1]                    # SIGHASH_SINGLE without a matching output (legacy digest "one")
+    return tx, nin, rng.choice([0, 1, 12345, 10 ** 8, 21 * 10 ** 14])
+
+
+def _mc_emit(name, P, tampers, containers, tx, nin, amount, flag_f, with_eval):
+    """yields SpendCases (and the single-script EvalCases) of plan P: untampered and tampered, in the containers"""
+    for tamper in [("none",)] + list(tampers):
+        Pt = dict(P, tamper=tamper)
+        for sv in ("B", "W"):
+            conts = [c for c in containers if (c in ("bare", "p2sh")) == (sv == "B")]
+            if not conts:
+                continue
+            script, items, ok, nonmin = _mc_construct(Pt, sv, tx, nin, amount)
+            for cont in conts:
+                if cont == "p2sh" and len(script) > 520:
+                    continue
+                ssig, wit = b"", []
+                if cont == "bare":
+                    spk, ssig = script, b"".join(push_min(x) for x in items)
+                elif cont == "p2sh":
+                    spk, ssig = b"\xa9\x14" + hash160(script) + b"\x87", b"".join(push_min(x) for x in items) + push_raw(script)
+                else:
+                    prog = b"\x00\x20" + sha256(script)
+                    wit = items + [script]
+                    spk = prog
+                    if cont == "p2sh_p2wsh":
+                        spk, ssig = b"\xa9\x14" + hash160(prog) + b"\x87", push_raw(prog)
+                for fi, fl in enumerate(flag_f(cont)):
+                    t1 = SynTx(tx.version, [list(v) for v in tx.vin], tx.vout, tx.locktime)
+                    t1.vin[nin][2], t1.vin[nin][4] = ssig, list(wit)
+                    tag = "mc/%s/%s/%s" % (cont, name, "-".join(str(x) for x in tamper))
+                    yield SpendCase(fl, t1, nin, spk, amount, tag + "|expect=" + _mc_expect(cont, fl, ok, nonmin))
+                    if with_eval and fi == 0 and cont != "p2sh":
+                        # single-script level (final stack compared); a failing final CHECKSIG is not an error here
+                        ex = "|expect=ok" if ok and not (nonmin and fl & FL["MINIMALDATA"]) else ""
+                        yield EvalCase(fl, sv, script, items, t1, nin, amount, tag + "/eval" + ex)
+
+
+def multi_check_cases(rng, tier, part="all"):
+    """2-4 CHECKSIG / CHECKSIGVERIFY / CHECKMULTISIG(VERIFY) operations in one scriptPubKey, redeem script or witness
+    script, real signatures (see the comment above).  part: "core" = the deterministic plans, "random", "all"."""
+    quick = tier == "quick"
+    if part in ("core", "all"):
+        for pi, (name, P) in enumerate(_mc_core_plans()):
+            tx, nin, amount = _mc_tx(rng)
+            tampers = _mc_tampers(P)
+            if quick:
+                # all position swaps are kept (they are what a stale digest accepts), the rest rotates
+                sw = [t for t in tampers if t[0] == "swap"][:2]
+                rest = [t for t in tampers if t[0] != "swap"]
+                tampers = sw + rest[pi % len(rest):][:1]
+
+            def flag_f(cont, pi=pi):
+                if cont in ("bare", "p2sh"):
+                    fls = [MC_FLAGS_BASE[(pi + (cont == "p2sh")) % len(MC_FLAGS_BASE)] | (FL["P2SH"] if cont == "p2sh" else 0)]
+                else:
+                    fls = [MC_FLAGS_WIT[pi % len(MC_FLAGS_WIT)]]
+                return fls if quick else fls + [rand_flags(rng), close_flags(ALL_FLAGS)]
+            conts = ["bare", "p2sh", "p2wsh"] + ([] if quick and pi % 4 else ["p2sh_p2wsh"])
+            for c in _mc_emit(name, P, tampers, conts, tx, nin, amount, flag_f, with_eval=True):
+                yield c
+    if part in ("random", "all"):
+        for ri in range(45 if quick else 600):
+            P = _mc_random_plan(rng)
+            tx, nin, amount = _mc_tx(rng)
+            tampers = _mc_tampers(P, rng)
+            tampers = [rng.choice(tampers)] if quick else rng.sample(tampers, min(len(tampers), 3))
+
+            def flag_f(cont, ri=ri):
+                need = FL["P2SH"] if cont == "p2sh" else (FL["P2SH"] | FL["WITNESS"] if cont != "bare" else 0)
+                return [close_flags(subset(CORE6_SIG, rng.getrandbits(6)) | need | (FL["CLEANSTACK"] if ri % 5 == 0 else 0)), rand_flags(rng)]
+            conts = ["bare", "p2sh", "p2wsh"] if ri % 6 else ["bare", "p2sh", "p2wsh", "p2sh_p2wsh"]
+            if quick:
+                conts = [conts[ri % 3], conts[(ri + 1 + ri // 3 % 2) % 3]]
+            for c in _mc_emit("random", P, tampers, conts, tx, nin, amount, flag_f, with_eval=not quick or ri % 3 == 0):
+                yield c
+
+
+def _expectation_failure(tag, spec, level):
+    """cases built for a known verdict carry it in the tag: the SPEC must give that verdict (guards the generators
+    against silent degeneration, e.g. signatures that stopped being valid)"""
+    if tag.startswith("mc/"):
+        STATS["multi_check"] += 1
+        STATS["multi_check_spec_ok"] += spec[0] == "ok"
+    if "|expect=" not in tag:
+        return None
+    want = tag.rsplit("|expect=", 1)[1]
+    if want in ("ok", "fail") and spec[0] != want:
+        return {"kind": "construction", "level": level, "detail": "the case was constructed to be %s by consensus, the extracted spec says %s"
+                % (want, _show(spec)), "spec": _show(spec)}
+    return None
+
+
 def derived_eval_cases(sp: SpendCase):
     """the last script of a spend as a single-script case (initial stack = what the pipeline would pass)"""
     tx, nin = sp.tx, sp.nin
@@ -2039,7 +2444,7 @@ def chk_eval(c: EvalCase):
     if spec[0] == "ok":
         STATS["eval_ok"] += 1
     if _agree(spec, impl):
-        return None
+        return _expectation_failure(c.tag, spec, "eval")
     if lax and impl[0] != "crash":
         STATS["lax_region_diffs_in_main_stream"] += 1
         return None
@@ -2057,7 +2462,7 @@ def chk_spend(c: SpendCase):
     if spec[0] == "ok":
         STATS["spend_ok"] += 1
     if _agree(spec, impl):
-        return None
+        return _expectation_failure(c.tag, spec, "spend")
     if lax and impl[0] != "crash":
         STATS["lax_region_diffs_in_main_stream"] += 1
         return None
@@ -2114,16 +2519,36 @@ def vector_differential():
         yield c
 
 
+def _child_rng(rng, label):
+    import random
+    return random.Random(int.from_bytes(hashlib.sha256((label + repr(rng.getstate())).encode()).digest()[:16], "big"))
+
+
+def _mixed_prop_case(c):
+    if isinstance(c, EvalCase):
+        return PropCase("eval", c.to_json(), (lambda c=c: chk_eval(c)))
+    return PropCase("spend", c.to_json(), (lambda c=c: chk_spend(c)))
+
+
 def prop_cases(rng, tier):
     yield PropCase("spec_vectors", {}, chk_vectors)
     for c in vector_differential():
         yield PropCase("spend", c.to_json(), (lambda c=c: chk_spend(c)))
+    # several signature checks in one script: its own random stream (derived from the state of rng without drawing from
+    # it, so the streams of the other generators are what they were); the deterministic plans come early in both tiers,
+    # the thorough tier's random volume after the ordinary spends
+    mc_rng = _child_rng(rng, "multi-check")
+    for c in multi_check_cases(mc_rng, tier, "all" if tier == "quick" else "core"):
+        yield _mixed_prop_case(c)
     for c in eval_cases(rng, tier):
         yield PropCase("eval", c.to_json() if len(c.stack) < 50 and len(c.script) < 2000 else _compact_json(c), (lambda c=c: chk_eval(c)))
     for c in spend_cases(rng, tier):
         yield PropCase("spend", c.to_json(), (lambda c=c: chk_spend(c)))
         for e in derived_eval_cases(c):
             yield PropCase("eval", e.to_json(), (lambda e=e: chk_eval(e)))
+    if tier != "quick":
+        for c in multi_check_cases(mc_rng, tier, "random"):
+            yield _mixed_prop_case(c)
     for c in list(cms_opcount_cases(rng, tier)) + list(junk_sig_batches(rng, tier)):
         if isinstance(c, EvalCase):
             yield PropCase("eval", c.to_json(), (lambda c=c: chk_eval(c)))
